@@ -138,7 +138,9 @@ func loadSchemaPaths() []schemaPath {
 	return schemaPaths
 }
 
-var nodeKinds = []string{"null", "bool", "int", "float", "string", "empty-list", "list-str", "list-map", "empty-map", "map", "reset", "override-map", "override-list", "override-str"}
+var nodeKinds = []string{"null", "bool", "int", "float", "string", "empty-list", "list-str", "list-map", "empty-map", "map", "reset", "override-map", "override-list", "override-str",
+	// scalars yaml.v3 does not decode to a string although a JSON schema sees one, and collections nested where scalars are expected
+	"timestamp", "list-timestamp", "list-list", "map-list"}
 
 func kindNode(k string) *Y {
 	switch k {
@@ -160,6 +162,14 @@ func kindNode(k string) *Y {
 		return Seq(Map().Set("k", Str("v")))
 	case "empty-map":
 		return Map()
+	case "timestamp":
+		return Raw("2001-12-14")
+	case "list-timestamp":
+		return Seq(Raw("2001-12-14"), Str("a"))
+	case "list-list":
+		return Seq(StrSeq("a"), StrSeq("b"))
+	case "map-list":
+		return Map().Set("k", StrSeq("a")).Set("driver", StrSeq("a")).Set("name", StrSeq("a"))
 	case "reset":
 		return &Y{S: "null", Raw: true, Tag: "!reset"}
 	case "override-map":
@@ -176,7 +186,11 @@ func kindNode(k string) *Y {
 	return Map().Set("k", Str("v")).Set("n", Int(1))
 }
 
-var placements = []string{"single", "override", "extends-base", "included"}
+var placements = []string{"single", "override", "extends-base", "included",
+	// the same confusing value on BOTH sides of a merge: two files, or an extending service and its base
+	"both-files", "extends-both",
+	// the confusing value in the base (another file), a valid value for the same attribute in the extending service
+	"extends-valid-child"}
 
 var optSets = []LoadOpts{
 	{},
@@ -326,6 +340,60 @@ func c01cLayout(cs c01cCase, paths []schemaPath) *Layout {
 			L.Files[main] = "services:\n  child:\n    image: img\n    extends:\n      file: ./base/base_f0.yaml\n      service: svc\n  same:\n    extends: child\n"
 		} else {
 			L.Files[main] = Emit(doc, nil)
+		}
+		L.Main = []string{main}
+	case "extends-valid-child":
+		if p.Root == "services" && len(p.Segs) > 0 {
+			L.Files["/proj/base/base_f0.yaml"] = Emit(doc, nil)
+			child := Map().Set("image", Str("img")).Set("extends", Map().Set("file", Str("./base/base_f0.yaml")).Set("service", Str("svc")))
+			r := zsimrt.NewRun(1)
+			g := &G{R: r, feat: map[string]bool{}, L: &Layout{}}
+			c := &svcCtx{name: "child", dir: "/proj", networks: []string{"n1"}, volumes: []string{"v1"}, secrets: []string{"s1"}, configs: []string{"c1"}, others: []string{"other"}}
+			md := Map().Set("services", Map().Set("child", child).Set("other", Map().Set("image", Str("img"))))
+			if v := g.attr(p.Segs[0], c); v != nil {
+				child.Set(p.Segs[0], v)
+				md.Set("networks", Map().Set("n1", Null()))
+				md.Set("volumes", Map().Set("v1", Null()))
+				md.Set("secrets", Map().Set("s1", Map().Set("file", Str("./s"))))
+				md.Set("configs", Map().Set("c1", Map().Set("file", Str("./c"))))
+			} else if p.Segs[0] == "build" {
+				child.Set("build", Str("."))
+			}
+			L.Files[main] = Emit(md, nil)
+		} else {
+			L.Files[main] = Emit(doc, nil)
+		}
+		L.Main = []string{main}
+	case "both-files":
+		L.Files[main] = Emit(doc, nil)
+		L.Files["/proj/override_f1.yaml"] = Emit(buildConfusion(p, kindNode(cs.Kind)), nil)
+		L.Main = []string{main, "/proj/override_f1.yaml"}
+	case "extends-both":
+		if p.Root == "services" {
+			L.Files["/proj/base/base_f0.yaml"] = Emit(doc, nil)
+			// the extending services carry the same confusing attribute as their base (other file, then same file)
+			md := buildConfusion(p, kindNode(cs.Kind))
+			ms := md.Get("services")
+			if ms != nil && ms.Kind == 1 && ms.Get("svc") != nil && ms.Get("svc").Kind == 1 {
+				child := ms.Get("svc")
+				ms.Del("svc")
+				child.Set("extends", Map().Set("file", Str("./base/base_f0.yaml")).Set("service", Str("svc")))
+				ms.Set("child", child)
+				md2 := buildConfusion(p, kindNode(cs.Kind))
+				if s2 := md2.Get("services"); s2 != nil && s2.Kind == 1 && s2.Get("svc") != nil && s2.Get("svc").Kind == 1 {
+					same := s2.Get("svc")
+					same.Set("extends", Str("child"))
+					ms.Set("same", same)
+				}
+				L.Files[main] = Emit(md, nil)
+			} else {
+				L.Files[main] = "services:\n  child:\n    image: img\n    extends:\n      file: ./base/base_f0.yaml\n      service: svc\n"
+			}
+		} else {
+			L.Files[main] = Emit(doc, nil)
+			L.Files["/proj/override_f1.yaml"] = Emit(buildConfusion(p, kindNode(cs.Kind)), nil)
+			L.Main = []string{main, "/proj/override_f1.yaml"}
+			break
 		}
 		L.Main = []string{main}
 	case "included":
